@@ -84,6 +84,20 @@ func cmdFunc(args []string) {
 	}
 	bad := 0
 	for _, key := range keys {
+		if key == "lemma" {
+			r := verifyLemmas(prog, "")
+			if r.Err != "" {
+				fmt.Println("ERROR", firstLines(r.Err, 8))
+			}
+			dischargeAll(r.Obligations, *timeout, 0, true)
+			for _, o := range r.Obligations {
+				fmt.Printf("%-8s %-10s %5dms %s\n", o.Result, o.Solver, o.Ms, o.Name)
+				if o.Result != "unsat" {
+					bad++
+				}
+			}
+			continue
+		}
 		fi := prog.Funcs[key]
 		fc := prog.Contracts.Funcs[key]
 		if fi == nil || fc == nil {
